@@ -130,6 +130,21 @@ SPECS = [
          ],
          raises={'*': {'ensures': ["raised('e9') or raised('h1')"]}},
          serves=PROP + ["C02", "C07"]),
+    dict(id='S-Attribute-quotes',
+         # every attribute value is escaped for ITS OWN quote character, whatever quote characters its
+         # neighbours in the same start tag are written with
+         text='A<p c="s" k=\'t\' d="u" tal:attributes="k e9; d e10">x</p>B',
+         ensures=[
+             "evals(9) == 1 and evals(10) == 1",
+             "S() == S0() + 'A<p c=\"s\"' + "
+             "('' if quoted(val(9), \"'\", '&#39;', 't', DEFAULT()) is None else "
+             "\" k='\" + piece(quoted(val(9), \"'\", '&#39;', 't', DEFAULT())) + \"'\") + "
+             "('' if quoted(val(10), '\"', '&quot;', 'u', DEFAULT()) is None else "
+             "' d=\"' + piece(quoted(val(10), '\"', '&quot;', 'u', DEFAULT())) + '\"') + '>x</p>B'",
+             "quote_calls() == 2",
+         ],
+         raises={'*': {'ensures': ["raised('e9') or raised('e10')"]}},
+         serves=PROP + ["C02", "C07"]),
     dict(id='S-Attribute-dict',
          # a dictionary-valued entry of tal:attributes: evaluated once, before the named entries
          # it may override; each named entry once
@@ -139,6 +154,27 @@ SPECS = [
          raises={'*': {'ensures': ["raised('e9') or raised('e10') or loop_failed() or "
                                    "(evals(9) == 1 and evals(10) == 1)"]}},
          serves=PROP + ["C04", "C07"], no_fresh=True),
+    dict(id='S-Attribute-dict-first',
+         # "at most once ... later sources overriding earlier ones": an entry of an attribute dictionary
+         # whose key a LATER named statement targets contributes nothing -- the key compared exactly as
+         # the statement spells it; every other entry with a value other than None is appended once,
+         # escaped for the double quote.  One arbitrary iteration of the emitted loop is verified
+         # against this per-entry contract (keys are strings: A-DICTKEYS).
+         text='A<p tal:attributes="e10; onClick e9; data-Xy e8">x</p>B',
+         options={'boolean_attributes': []},
+         loops={1: {'abstract': {'calls': ['items', 'bool', '__append', '__quote']},
+                    'step': {'types': ['str', 'any'],
+                             'ensures': [
+                                 "iter_item(0) != 'onClick' or S() == iter_S0()",
+                                 "iter_item(0) != 'data-Xy' or S() == iter_S0()",
+                                 "iter_item(1) is not None or S() == iter_S0()",
+                                 "iter_item(0) == 'onClick' or iter_item(0) == 'data-Xy' or iter_item(1) is None or "
+                                 "S() == iter_S0() + ' ' + iter_item(0) + '=\"' + "
+                                 "piece(quoted(iter_item(1), '\"', '&quot;', None, None)) + '\"'",
+                             ]}}},
+         ensures=["evals(10) == 1 and evals(9) == 1 and evals(8) == 1", "trace('e10', 'e9', 'e8')"],
+         raises={'*': {'ensures': ["raised('e9') or raised('e10') or raised('e8') or loop_failed()"]}},
+         serves=PROP + ["C07", "C02"], no_fresh=True),
     dict(id='S-Literal',
          # expressions that are literal displays of mutable objects
          text='A<p tal:define="a []; b {1: 2}" tal:attributes="k {3}" tal:content="[e1]">x</p>B',
